@@ -28,7 +28,49 @@ func (m *C09Monitor) AfterPass(r *Runner, pv *PassView) error {
 	return nil
 }
 
+// parentPausedAndAcknowledged: the ObjectSetPhase's parent ObjectSet is paused in spec and its controller has
+// already processed that generation (its Paused condition refers to the current generation), i.e. the
+// pause had its chance to propagate.
+func parentPausedAndAcknowledged(r *Runner, pv *PassView) (map[string]any, bool) {
+	cr, ok := engine.ControllerRef(pv.Owner)
+	if !ok {
+		return nil, false
+	}
+	kind := "ObjectSet"
+	if asStr(pv.Owner["kind"]) == "ClusterObjectSetPhase" {
+		kind = "ClusterObjectSet"
+	}
+	pk := kubesim.Key{Group: engine.PKOGroup, Kind: kind, Namespace: kubesim.MetaString(pv.Owner, "namespace"), Name: cr.Name}
+	parent := r.StateAt(pk, pv.P.FirstSeq)
+	if parent == nil || engine.UID(parent) != cr.UID || !OwnerPaused(parent) || OwnerDeleting(parent) {
+		return nil, false
+	}
+	c, has := engine.Conditions(parent)["Paused"]
+	if !has || c.ObservedGeneration != engine.Generation(parent) {
+		return nil, false
+	}
+	return parent, true
+}
+
 func (m *C09Monitor) afterSetPass(r *Runner, pv *PassView) error {
+	if pv.Owner != nil && isPhaseController(pv.P.Controller) && !OwnerPaused(pv.Owner) && !OwnerDeleting(pv.Owner) && !pv.P.Crashed {
+		if parent, ok := parentPausedAndAcknowledged(r, pv); ok {
+			r.Labels["c09-phase-pass-under-paused-parent"] = true
+			for _, ph := range OwnerPhases(r.W.Store, pv.Owner) {
+				set := map[kubesim.Key]bool{}
+				for _, k := range ph.Keys {
+					set[k] = true
+				}
+				for _, c := range pv.Calls {
+					if c.Actor == "pko" && c.IsWrite() && !c.DryRun && set[c.Key] {
+						return Violf("C09", "delegated-phase-writes-while-objectset-paused",
+							"pass %d: ObjectSet %s is paused (and has reported on that generation: Paused=%s) but its delegated phase %s is not paused and issued %s on %s",
+							pv.P.ID, kubesim.MetaString(parent, "name"), engine.Conditions(parent)["Paused"].Status, kubesim.MetaString(pv.Owner, "name"), c.Verb, c.Key)
+					}
+				}
+			}
+		}
+	}
 	if pv.Owner == nil || !OwnerPaused(pv.Owner) || OwnerArchived(pv.Owner) || OwnerDeleting(pv.Owner) || pv.P.Crashed {
 		return nil
 	}
